@@ -57,8 +57,9 @@ def main():
     checks = [pid]
     if "--checks" in sys.argv:
         checks = sys.argv[sys.argv.index("--checks") + 1].split(",")
-    src = "/var/tmp/seed/%s/out/%s" % (pid, k)
-    dst = os.path.join(V, "seeded", pid, k)
+    rnd = sys.argv[sys.argv.index("--round") + 1] if "--round" in sys.argv else "1"
+    src = "/var/tmp/seed/%s/out%s/%s" % (pid, "" if rnd == "1" else rnd, k)
+    dst = os.path.join(V, "seeded", pid, k if rnd == "1" else "r%s_%s" % (rnd, k))
     if os.path.exists(src):
         os.makedirs(os.path.dirname(dst), exist_ok=True)
         if os.path.exists(dst):
